@@ -162,13 +162,19 @@ func orderRule(w *World, r *Report, rule string, a distAnchors) {
 		return
 	}
 	n := 0
-	for _, s := range cg.Sites[fn] {
-		if !calleeIs(s, "x/cfedistributor/keeper.Keeper.prepareCoinToDistributeForMainAccount") {
-			continue
-		}
+	// the Main branch may be called directly in the loop or through a dispatching helper: arguments are compared in the
+	// loop function's terms
+	for _, e := range w.effectsBelow(fn, func(s *Site) bool {
+		return calleeIs(s, "x/cfedistributor/keeper.Keeper.prepareCoinToDistributeForMainAccount")
+	}, 2) {
+		s := e.Site
 		n++
 		sees := false
-		for _, arg := range s.Common().Args {
+		rootArgs := make([]ssa.Value, len(s.Common().Args))
+		for i, arg := range s.Common().Args {
+			rootArgs[i] = e.ToRoot(arg)
+		}
+		for _, arg := range rootArgs {
 			if arg == ssa.Value(acc) {
 				sees = true
 			} else if strings.HasSuffix(typeString(arg.Type()), "types.DecCoins") {
@@ -181,7 +187,7 @@ func orderRule(w *World, r *Report, rule string, a distAnchors) {
 		if sees {
 			// and the callee subtracts it from the balance
 			callee := a.prepMain
-			for i, arg := range s.Common().Args {
+			for i, arg := range rootArgs {
 				if arg != ssa.Value(acc) || i >= len(callee.Params) {
 					continue
 				}
@@ -273,33 +279,37 @@ func successRule(w *World, r *Report, rule string) {
 		}
 		good := tc != nil && strings.HasSuffix(callName(tc.Common()), "types.DecCoins.TruncateDecimal") && loadOfField(tc.Common().Args[0], "Remains", nil)
 		r.Check(good, rule, funcName(fn)+": amount sent = integer part of this state's remains", w.Pos(xfer.Instr.Pos()), "TruncateDecimal()#0 of state.Remains", "the amount sent is not the truncated remains of the state")
+		// the state's fields written by the pay-out function or a helper it calls (values in the pay-out function's terms)
 		n := 0
-		for _, fs := range FieldStores(fn) {
-			if fs.Struct == nil || fs.Struct.Obj().Name() != "State" {
-				continue
-			}
+		for _, sb := range w.storesBelow(fn, "State", 2, nil) {
+			fs := sb.FS
 			n++
-			ex2, ok := fs.Store.Val.(*ssa.Extract)
+			ex2, ok := sb.Val.(*ssa.Extract)
 			same := ok && tc != nil && ex2.Tuple == ssa.Value(tc) && ex2.Index == 1 && fs.Field == "Remains"
 			r.Check(same, rule, fmt.Sprintf("%s: State.%s := change of the amount sent", funcName(fn), fs.Field), w.Pos(fs.Store.Pos()), "TruncateDecimal()#1 of the same call", "the state is updated with something else than the fractional change of what was sent")
-			// all preceding error results (address parsing, transfer) must be nil
-			var errs []ssa.Value
-			for _, s := range cg.Sites[fn] {
-				if c := siteCall(s); c != nil {
-					res := s.Common().Signature().Results()
-					if res.Len() > 0 && isErrorType(res.At(res.Len()-1).Type()) && cg.Atom(s) != EventEmit {
-						errs = append(errs, c)
-					}
-				}
-			}
-			okAll := OnSuccessEdge(fn, fs.Store, siteValue(xfer))
+			// the state written is the one whose remains were paid
+			sameState := tc != nil && sameStateBase(sb.Base, tc.Common().Args[0])
+			r.Check(sameState, rule, fmt.Sprintf("%s: State.%s written on the state that was paid", funcName(fn), fs.Field), w.Pos(fs.Store.Pos()), "same state pointer as the remains that were truncated", "the remainder is reduced on another state than the one whose coins were sent")
+			okAll := OnSuccessEdge(fn, sb.Top(), siteValue(xfer))
 			r.Check(okAll, rule, fmt.Sprintf("%s: State.%s updated only when the transfer succeeded", funcName(fn), fs.Field), w.Pos(fs.Store.Pos()), "dominated by the nil edge of the bank operation's error", "the recorded remainder is reduced although the coins may not have moved")
-			_ = errs
 		}
 		if n == 0 {
 			r.Bad(rule, funcName(fn)+": remains reduced after paying", w.Pos(fn.Pos()), "coins are paid out but the recorded remainder is never reduced (they would be paid again)")
 		}
 	}
+}
+
+// sameStateBase: the struct pointer a field is stored through and the operand `load base.Remains` name the same state.
+func sameStateBase(base ssa.Value, remainsLoad ssa.Value) bool {
+	u, ok := remainsLoad.(*ssa.UnOp)
+	if !ok || u.Op != token.MUL {
+		return false
+	}
+	fa, ok := u.X.(*ssa.FieldAddr)
+	if !ok {
+		return false
+	}
+	return fa.X == base || samePath(fa.X, base)
 }
 
 func checkC03(w *World, r *Report) {
@@ -515,6 +525,130 @@ func remainderChain(fn *ssa.Function, inflow *ssa.Parameter) map[ssa.Value]bool 
 	return chain
 }
 
+// remainderChainTree: the remainder chain over a function and the helpers it calls (interprocedural greatest fixed
+// point): the inflow parameter; phis all of whose edges are on the chain; Sub(x, ...) with x on the chain; a helper's
+// DecCoins parameter when every call site passes a chain value; result #i of a helper call when every return of the
+// helper yields a chain value at #i.
+func (w *World) remainderChainTree(root *ssa.Function, inflow *ssa.Parameter, fns []*ssa.Function) map[ssa.Value]bool {
+	cg := w.CG()
+	inTree := map[*ssa.Function]bool{}
+	for _, f := range fns {
+		inTree[f] = true
+	}
+	isDC := func(t types.Type) bool { return strings.HasSuffix(typeString(t), "types.DecCoins") }
+	chain := map[ssa.Value]bool{inflow: true}
+	for _, fn := range fns {
+		if fn != root {
+			for _, prm := range fn.Params {
+				if isDC(prm.Type()) {
+					chain[prm] = true
+				}
+			}
+		}
+		for _, b := range fn.Blocks {
+			for _, in := range b.Instrs {
+				switch x := in.(type) {
+				case *ssa.Phi:
+					if isDC(x.Type()) {
+						chain[x] = true
+					}
+				case *ssa.Call:
+					if strings.HasSuffix(callName(x.Common()), "types.DecCoins.Sub") {
+						chain[x] = true
+					} else if h := x.Common().StaticCallee(); h != nil && inTree[h] && isDC(x.Type()) {
+						chain[x] = true
+					}
+				case *ssa.Extract:
+					if c, ok := x.Tuple.(*ssa.Call); ok && isDC(x.Type()) {
+						if h := c.Common().StaticCallee(); h != nil && inTree[h] {
+							chain[x] = true
+						}
+					}
+				}
+			}
+		}
+	}
+	retOK := func(h *ssa.Function, idx int) bool {
+		rets := Returns(h)
+		for _, ret := range rets {
+			rv := retVals(ret)
+			if idx >= len(rv) || !chain[rv[idx]] {
+				return false
+			}
+		}
+		return len(rets) > 0
+	}
+	changed := true
+	for changed {
+		changed = false
+		for v := range chain {
+			keep := true
+			switch x := v.(type) {
+			case *ssa.Parameter:
+				if x == inflow {
+					continue
+				}
+				idx := -1
+				for i, q := range x.Parent().Params {
+					if q == x {
+						idx = i
+					}
+				}
+				callers := cg.Callers[x.Parent()]
+				keep = idx >= 0 && len(callers) > 0
+				for _, cs := range callers {
+					if cs.Common().IsInvoke() || idx >= len(cs.Common().Args) || !chain[cs.Common().Args[idx]] {
+						keep = false
+					}
+				}
+			case *ssa.Phi:
+				for _, e := range x.Edges {
+					if !chain[e] {
+						keep = false
+					}
+				}
+			case *ssa.Call:
+				if strings.HasSuffix(callName(x.Common()), "types.DecCoins.Sub") {
+					keep = chain[x.Common().Args[0]]
+				} else {
+					keep = retOK(x.Common().StaticCallee(), 0)
+				}
+			case *ssa.Extract:
+				keep = retOK(x.Tuple.(*ssa.Call).Common().StaticCallee(), x.Index)
+			}
+			if !keep {
+				delete(chain, v)
+				changed = true
+			}
+		}
+	}
+	return chain
+}
+
+func isCreditSite(s *Site) bool {
+	return len(s.Callees) > 0 && strings.Contains(s.Method, "addSharesTo")
+}
+
+// distTree: the distribution routine and the helpers among which a refactoring may have split it (the crediting
+// helpers and the percentage helper are not entered: they are the effects / the share formula). Returns the credit and
+// percentage sites with their call chains, the functions of the tree, and for each function the chain that leads to it.
+func (w *World) distTree(fn *ssa.Function) ([]EffSite, []*ssa.Function, map[*ssa.Function][]*Site) {
+	credits := w.effectsBelow(fn, func(s *Site) bool {
+		return isCreditSite(s) || calleeIs(s, "x/cfedistributor/keeper.calculatePercentage")
+	}, 2)
+	chainOf := map[*ssa.Function][]*Site{fn: nil}
+	fns := []*ssa.Function{fn}
+	for _, e := range credits {
+		for i, c := range e.Chain {
+			if _, ok := chainOf[c.Static]; !ok {
+				chainOf[c.Static] = e.Chain[:i+1]
+				fns = append(fns, c.Static)
+			}
+		}
+	}
+	return credits, fns, chainOf
+}
+
 func conserveRule(w *World, r *Report, rule string, a distAnchors) {
 	cg := w.CG()
 	fn := a.start
@@ -523,12 +657,25 @@ func conserveRule(w *World, r *Report, rule string, a distAnchors) {
 		r.Unk(rule, "inflow parameter", w.Pos(fn.Pos()), "no DecCoins parameter")
 		return
 	}
-	chain := remainderChain(fn, inflow)
+	isCredit := isCreditSite
+	credits, fns, _ := w.distTree(fn)
+	chain := w.remainderChainTree(fn, inflow, fns)
+	// every subtraction on the chain, anywhere in the tree
+	var subs []*ssa.Call
+	for _, f := range fns {
+		for _, s2 := range cg.Sites[f] {
+			if c2 := siteCall(s2); c2 != nil && strings.HasSuffix(callName(c2.Common()), "types.DecCoins.Sub") && chain[c2] {
+				subs = append(subs, c2)
+			}
+		}
+	}
 	finals := 0
-	for _, s := range cg.Sites[fn] {
-		if len(s.Callees) == 0 || !strings.Contains(s.Method, "addSharesTo") {
+	for _, e := range credits {
+		s := e.Site
+		if !isCredit(s) {
 			continue
 		}
+		cf := s.Caller
 		var x ssa.Value
 		for _, arg := range s.Args() {
 			if strings.HasSuffix(typeString(arg.Type()), "types.DecCoins") {
@@ -539,8 +686,8 @@ func conserveRule(w *World, r *Report, rule string, a distAnchors) {
 		if c, ok := x.(*ssa.Call); ok && strings.HasSuffix(callName(c.Common()), "keeper.calculatePercentage") {
 			// must have been subtracted from the remainder, dominating the credit
 			sub := false
-			for _, s2 := range cg.Sites[fn] {
-				if c2 := siteCall(s2); c2 != nil && strings.HasSuffix(callName(c2.Common()), "types.DecCoins.Sub") && c2.Common().Args[1] == x && chain[c2.Common().Args[0]] && chain[c2] && instrDominates(c2, s.Instr) {
+			for _, c2 := range subs {
+				if c2.Parent() == cf && c2.Common().Args[1] == x && chain[c2.Common().Args[0]] && instrDominates(c2, s.Instr) {
 					// and the subtraction's result must flow on (be part of the chain feeding later phis)
 					if c2.Referrers() != nil && len(*c2.Referrers()) > 0 {
 						sub = true
@@ -553,7 +700,7 @@ func conserveRule(w *World, r *Report, rule string, a distAnchors) {
 		if chain[x] {
 			finals++
 			// only when the primary destination is not Main
-			edges := EdgesWhere(fn, func(base ssa.Value) (bool, bool) {
+			edges := EdgesWhere(cf, func(base ssa.Value) (bool, bool) {
 				bo, ok := base.(*ssa.BinOp)
 				if !ok || (bo.Op != token.EQL && bo.Op != token.NEQ) {
 					return false, false
@@ -565,8 +712,22 @@ func conserveRule(w *World, r *Report, rule string, a distAnchors) {
 				}
 				return false, false
 			})
-			r.Check(MustPass(fn, edges, s.Instr.Block()) && !inCycle(s.Instr.Block()), rule, "final remainder credited once, to a non-Main primary destination", pos, "outside any loop, under Type != MAIN", "the remainder is credited inside a loop or also when the primary destination is the main account")
-			// it must be the last value of the chain: no Sub on the chain after it
+			once := !inCycle(s.Instr.Block())
+			for _, c := range e.Chain {
+				if inCycle(c.Instr.Block()) {
+					once = false
+				}
+			}
+			r.Check(MustPass(cf, edges, s.Instr.Block()) && once, rule, "final remainder credited once, to a non-Main primary destination", pos, "outside any loop, under Type != MAIN", "the remainder is credited inside a loop or also when the primary destination is the main account")
+			// it is the last value of the chain: every subtraction made on the remainder is on its backward slice
+			o := w.Tracer().OriginsVia(e, x, nil)
+			missing := ""
+			for _, c2 := range subs {
+				if !o.Calls[c2] {
+					missing = w.Pos(c2.Pos())
+				}
+			}
+			r.Check(missing == "", rule, "the remainder credited is what is left after every subtraction", pos, fmt.Sprintf("all %d subtractions of shares are on the backward slice of the credited remainder", len(subs)), "the value credited to the primary destination was taken before the subtraction at "+missing+": that share is paid twice")
 			continue
 		}
 		r.Bad(rule, "value credited in "+s.Method, pos, "a value that is neither a computed share nor the running remainder is credited to a state")
@@ -679,18 +840,26 @@ func checkC04(w *World, r *Report) {
 	}
 	// ---------- C04.everyshare / fraction ----------
 	{
-		fn := a.start
-		inflow := paramOfType(fn, "github.com/cosmos/cosmos-sdk/types.DecCoins", 0)
-		chain := remainderChain(fn, inflow)
+		root := a.start
+		inflow := paramOfType(root, "github.com/cosmos/cosmos-sdk/types.DecCoins", 0)
+		sites, fns, chainOf := w.distTree(root)
+		chain := w.remainderChainTree(root, inflow, fns)
+		// isInflow: the value (of tree function f) is the sub-distributor's total inflow handed down unchanged
+		isInflow := func(f *ssa.Function, v ssa.Value) bool {
+			return EffSite{Chain: chainOf[f]}.ToRoot(v) == ssa.Value(inflow)
+		}
 		var shareLoop *rangeLoop
-		for _, l := range rangeLoops(fn) {
-			l := l
-			if l.Over != nil && loadOfField(l.Over, "Shares", nil) {
-				shareLoop = &l
+		var fn *ssa.Function
+		for _, f := range fns {
+			for _, l := range rangeLoops(f) {
+				l := l
+				if l.Over != nil && loadOfField(l.Over, "Shares", nil) {
+					shareLoop, fn = &l, f
+				}
 			}
 		}
 		if shareLoop == nil {
-			r.Unk("C04.everyshare", "loop over Destinations.Shares", w.Pos(fn.Pos()), "loop not found")
+			r.Unk("C04.everyshare", "loop over Destinations.Shares", w.Pos(root.Pos()), "loop not found")
 		} else {
 			// the value finally credited to the primary destination, as a signed combination of loop-carried
 			// accumulators: V = (+)remainder (-)kept-aside ... ; on every iteration path the share must enter one of
@@ -709,6 +878,7 @@ func checkC04(w *World, r *Report) {
 			if credited != nil {
 				accumulatorSigns(credited, +1, shareLoop.Header, signs, map[ssa.Value]bool{})
 			} else {
+				// the remainder is credited by another function of the tree: the loop-carried values on the remainder chain
 				for v := range chain {
 					if phi, isPhi := v.(*ssa.Phi); isPhi && phi.Block() == shareLoop.Header {
 						signs[phi] = +1
@@ -720,7 +890,7 @@ func checkC04(w *World, r *Report) {
 				if !ok || !strings.HasSuffix(callName(pc.Common()), "keeper.calculatePercentage") {
 					return false
 				}
-				return loadOfField(pc.Common().Args[0], "Share", nil) && pc.Common().Args[1] == ssa.Value(inflow)
+				return loadOfField(pc.Common().Args[0], "Share", nil) && isInflow(fn, pc.Common().Args[1])
 			}
 			isShareSub := func(c *ssa.Call) bool {
 				n := callName(c.Common())
@@ -750,19 +920,21 @@ func checkC04(w *World, r *Report) {
 			r.Check(ok, "C04.everyshare", "every share is taken from the remainder", w.Pos(shareLoop.Body.Instrs[0].Pos()), "every path through the loop body subtracts calculatePercentage(share.Share, inflow)",
 				"some iteration path (a share whose destination is the main account) skips the subtraction: that share is silently added to the primary destination")
 		}
-		// fraction: per calculatePercentage call
-		for _, s := range cg.Sites[fn] {
+		// fraction: per calculatePercentage call, wherever in the tree it stands
+		for _, e := range sites {
+			s := e.Site
 			if !calleeIs(s, "x/cfedistributor/keeper.calculatePercentage") {
 				continue
 			}
+			f := s.Caller
 			c := siteCall(s)
 			args := c.Common().Args
 			isShare := loadOfField(args[0], "Share", nil)
 			isBurn := loadOfField(args[0], "BurnShare", nil)
-			okInflow := args[1] == ssa.Value(inflow)
+			okInflow := isInflow(f, args[1])
 			r.Check((isShare || isBurn) && okInflow, "C04.fraction", "fraction applied to the total inflow", w.Pos(s.Instr.Pos()), "calculatePercentage(own share, inflow parameter)", "the share is not the destination's own fraction of the sub-distributor's total inflow")
 			// credited to the same destination
-			for _, s2 := range cg.Sites[fn] {
+			for _, s2 := range cg.Sites[f] {
 				if len(s2.Callees) == 0 || !strings.Contains(s2.Method, "addSharesTo") {
 					continue
 				}
@@ -1273,46 +1445,80 @@ func remainsWritersRule(w *World, r *Report, rule string) {
 			if fs.Field != "Remains" || !namedIs(fs.Struct, "x/cfedistributor/types", "State") {
 				continue
 			}
-			val := fs.Store.Val
-			kind := ""
-			switch {
-			case isEmptyDecCoins(val):
-				// zeroing: either a new state's initial value, or the old value is carried into the returned inflow
-				if _, isAlloc := fs.FA.X.(*ssa.Alloc); isAlloc {
-					kind = "initial value of a new state"
-				} else {
-					carried := false
-					for _, ret := range Returns(fn) {
-						for _, rv := range retVals(ret) {
-							if tr.Origins(rv).HasPath("State.Remains") {
-								carried = true
-							}
+			// a value handed in as a parameter is classified at every call site of the helper
+			type inst struct {
+				fn  *ssa.Function
+				val ssa.Value
+			}
+			insts := []inst{{fn, fs.Store.Val}}
+			if prm, isP := fs.Store.Val.(*ssa.Parameter); isP {
+				idx := -1
+				for i, q := range fn.Params {
+					if q == prm {
+						idx = i
+					}
+				}
+				if callers := cg.Callers[fn]; idx >= 0 && len(callers) > 0 {
+					var lifted []inst
+					for _, cs := range callers {
+						if !cs.Common().IsInvoke() && idx < len(cs.Common().Args) {
+							lifted = append(lifted, inst{cs.Caller, cs.Common().Args[idx]})
+						} else {
+							lifted = nil
+							break
 						}
 					}
-					if carried {
-						kind = "cleared and carried into the inflow returned"
-					}
-				}
-			default:
-				if c, ok := isCallTo(val, "types.DecCoins.Add"); ok && loadOfField(c.Common().Args[0], "Remains", nil) {
-					// credit: Remains = Remains.Add(share parameter)
-					o := tr.Origins(c.Common().Args[1])
-					if _, isP := stripSlice(c.Common().Args[1]).(*ssa.Parameter); isP || o.HasLeaf("param", "") {
-						kind = "credit of the share passed in"
-					}
-				}
-				if ex, ok := val.(*ssa.Extract); ok && ex.Index == 1 {
-					if c, ok := ex.Tuple.(*ssa.Call); ok && strings.HasSuffix(callName(c.Common()), "DecCoins.TruncateDecimal") {
-						kind = "change left after a pay-out"
+					if lifted != nil {
+						insts = lifted
 					}
 				}
 			}
-			construct := fmt.Sprintf("%s: State.Remains := %s", funcName(fn), map[bool]string{true: kind, false: "?"}[kind != ""])
-			n[funcName(fn)+kind]++
-			if kind == "" {
-				r.Bad(rule, fmt.Sprintf("%s: unclassified store to State.Remains #%d", funcName(fn), n[funcName(fn)+kind]), w.Pos(fs.Store.Pos()), "this write of a state's leftover is neither the initial value, a credit of the share passed in, the change after a pay-out, nor a clearing whose old value is returned as inflow: the books change without coins moving")
-			} else {
-				r.Enum(rule, fmt.Sprintf("%s #%d", construct, n[funcName(fn)+kind]), w.Pos(fs.Store.Pos()), kind)
+			for _, it := range insts {
+				val := it.val
+				kind := ""
+				switch {
+				case isEmptyDecCoins(val):
+					// zeroing: either a new state's initial value, or the old value is carried into the returned inflow
+					if _, isAlloc := fs.FA.X.(*ssa.Alloc); isAlloc {
+						kind = "initial value of a new state"
+					} else {
+						carried := false
+						for _, ret := range Returns(fn) {
+							for _, rv := range retVals(ret) {
+								if tr.Origins(rv).HasPath("State.Remains") {
+									carried = true
+								}
+							}
+						}
+						if carried {
+							kind = "cleared and carried into the inflow returned"
+						}
+					}
+				default:
+					if c, ok := isCallTo(val, "types.DecCoins.Add"); ok && loadOfField(c.Common().Args[0], "Remains", nil) {
+						// credit: Remains = Remains.Add(share parameter)
+						o := tr.Origins(c.Common().Args[1])
+						if _, isP := stripSlice(c.Common().Args[1]).(*ssa.Parameter); isP || o.HasLeaf("param", "") {
+							kind = "credit of the share passed in"
+						}
+					}
+					if ex, ok := val.(*ssa.Extract); ok && ex.Index == 1 {
+						if c, ok := ex.Tuple.(*ssa.Call); ok && strings.HasSuffix(callName(c.Common()), "DecCoins.TruncateDecimal") {
+							kind = "change left after a pay-out"
+						}
+					}
+				}
+				where := funcName(fn)
+				if it.fn != fn {
+					where += " (value from " + funcName(it.fn) + ")"
+				}
+				construct := fmt.Sprintf("%s: State.Remains := %s", where, map[bool]string{true: kind, false: "?"}[kind != ""])
+				n[where+kind]++
+				if kind == "" {
+					r.Bad(rule, fmt.Sprintf("%s: unclassified store to State.Remains #%d", where, n[where+kind]), w.Pos(fs.Store.Pos()), "this write of a state's leftover is neither the initial value, a credit of the share passed in, the change after a pay-out, nor a clearing whose old value is returned as inflow: the books change without coins moving")
+				} else {
+					r.Enum(rule, fmt.Sprintf("%s #%d", construct, n[where+kind]), w.Pos(fs.Store.Pos()), kind)
+				}
 			}
 		}
 	}
